@@ -302,6 +302,14 @@ func (r *run) genBatch(hp *histPlan, i int) *batchIn {
 	b := &batchIn{signal: hp.signals[t.Draw(core.Gen, len(hp.signals))], kind: "normal"}
 	g := &G{t: t, InDomain: hp.inDomain, Bare: hp.bare}
 	switch {
+	case hp.ramp == "small" && t.Chance(core.Gen, 1, 4):
+		// many resources and scopes with unique names / schema URLs: the
+		// dictionaries of the resource- and scope-level columns cross 255
+		b.kind = "ramp255wide"
+		g.Plain = true
+		g.Wide = true
+		g.Uniq = &hp.uniq
+		g.UniqPct = []int{100, 60}[t.Draw(core.Gen, 2)]
 	case hp.ramp == "small" && t.Chance(core.Gen, 2, 3):
 		// a few hundred items with unique strings: crosses 255 quickly
 		b.kind = "ramp255"
